@@ -32,7 +32,7 @@ var c15Progs = []struct{ name, src string }{
 	// a call whose argument is another call (the debugger's step-in special case: stop before entering f)
 	{"argcall", "func g(x) {\n  return x * 2\n}\nfunc f(x) {\n  return x + 1\n}\nr := f(g(2))\nlog(r)"},
 	// a thread suspended inside nested block scopes of a function
-	{"blocks", "func f(x) {\n  if x > 0 {\n    let y := x\n    for i in [1] {\n      y := y + i\n    }\n    return y\n  }\n}\na := f(1)"},
+	{"blocks", "func f(x) {\n  if x > 0 {\n    let y := x\n    for i in range(1, 2) {\n      y := y + i\n    }\n    return y\n  }\n}\na := f(1)"},
 }
 
 func c15Lines(src string) int { return strings.Count(src, "\n") + 1 }
@@ -539,7 +539,7 @@ func init() {
 		}
 	}
 	register(&Scenario{Prop: "C15", Name: "bulk-breakpoint-edits", Quick: 0, Thor: 0, FreeQuick: -1, FreeThor: -1, Horizon: 50000000,
-		Desc: "12-line program: every history of <= 2 (thorough 3) breakpoint commands over {break, rmbreak, disablebreak} x lines {1, 2, 10, 12} + {rmbreak v, break vv:1, rmbreak vv}, and every history of <= 4 (thorough 5) commands over the reduced alphabet {break, rmbreak, disablebreak} x lines {2, 10} + {rmbreak v}; the table reported by status must equal the reference map and the thread must suspend (break-on-error off, resume only) exactly at the lines the reference says are active; differential oracle against the undebugged run",
+		Desc: "12-line program: every history of <= 2 (thorough 3) breakpoint commands over {break, rmbreak, disablebreak} x lines {1, 2, 10, 12} + {rmbreak v, break vv:1, rmbreak vv}, and every history of <= 4 commands over the reduced alphabet {break, rmbreak, disablebreak} x lines {2, 10} + {rmbreak v}; the table reported by status must equal the reference map and the thread must suspend (break-on-error off, resume only) exactly at the lines the reference says are active; differential oracle against the undebugged run",
 		Make: func() (func(), func(e *vsched.Exec) (string, *vsched.Violation)) {
 			var probs []string
 			cfgs := 0
@@ -582,7 +582,7 @@ func init() {
 				full := c15EditCmds
 				c15EditCmds = reduced
 				lo := depth
-				depth += 2
+				depth = 4 // both tiers: 7^3 + 7^4 histories (thorough already has the full alphabet to depth 3)
 				var rec2 func(h []string)
 				rec2 = func(h []string) {
 					if len(h) > lo {
